@@ -59,6 +59,11 @@ def conv(n):
         return {"k": "Const", "v": desc(n.value)}
     if isinstance(n, ast.BinOp):
         return {"k": "BinOp", "op": BINAST[type(n.op)], "l": conv(n.left), "r": conv(n.right)}
+    if (isinstance(n, ast.UnaryOp) and isinstance(n.op, ast.USub) and isinstance(n.operand, ast.Constant)
+            and type(n.operand.value) in (int, float)):
+        # a negative numeric literal: one constant for CPython's compiler, `neg` of a plain number for an AST
+        # interpreter - no event either way, and the value is known
+        return {"k": "Const", "v": desc(-n.operand.value)}
     if isinstance(n, ast.UnaryOp):
         return {"k": "UnaryOp", "op": UNAST[type(n.op)], "v": conv(n.operand)}
     if isinstance(n, ast.BoolOp):
@@ -624,18 +629,101 @@ def _leaf_spans(src):
 
 def gen_templates():
     """every node type x every child position: as written, with a raising operand at each position,
-    and with each kind of value at each position."""
+    with each kind of value at each position (wrapped in a recorder object), and - templates with at least two
+    leaves - with each kind of value at each position as the PLAIN object (the other leaves keep recording)."""
     out = []
     kl = kind_lits(False)
     for ti, line in enumerate(TEMPLATES):
         src = line.replace("|", "\n")
         out.append(("tpl/%d" % ti, src))
-        for (n, a, b) in _leaf_spans(src):
+        spans = _leaf_spans(src)
+        for (n, a, b) in spans:
             out.append(("tpl/%d/raise@%d" % (ti, n), src[:a] + "(" + RAISER % n + ")" + src[b:]))
             for kname, lit in kl:
                 v = src[:a] + "t(%d, %s)" % (n, lit) + src[b:]
                 if v != src:
                     out.append(("tpl/%d/%s@%d" % (ti, kname, n), v))
+                if len(spans) >= 2:
+                    out.append(("tpl/%d/plain-%s@%d" % (ti, kname, n), src[:a] + "(" + lit + ")" + src[b:]))
+    return out
+
+
+# ---- scope family: every operation that binds / rebinds / unbinds / shadows a NAME  x  every kind of value
+# the name holds before.  (Round 3: the templates and tables bind names only to recorder objects - `t(1, None)`
+# is a truthy-or-falsy WRAPPER, never the plain object - and the random programs' comprehension variables
+# u/v/vv never coincide with an assigned name: "the enclosing scope already has this name, bound to a plain
+# None / 0 / '' / [] ..." was outside the generated space.)
+# `{B}` = the prelude that binds the names v and w; every form ends with a read of the names.
+SCOPE_FORMS = [
+    # comprehension loop variables shadow the enclosing binding (own scope: restored afterwards)
+    ("comp/list", "x = [v for v in t(1, [7, 8])]"),
+    ("comp/set", "x = {v for v in t(1, [7, 8])}"),
+    ("comp/dict", "x = {v: t(2) for v in t(1, [7, 8])}"),
+    ("comp/empty", "x = [v for v in t(1, [])]"),
+    ("comp/emptydict", "x = {v: w for v, w in t(1, [])}"),
+    ("comp/plainiter", "x = [v for v in [t(1), t(2)]]"),
+    ("comp/pair", "x = [(v, w) for v, w in t(1, [[1, 2], [3, 4]])]"),
+    ("comp/dictpair", "x = {v: w for v, w in t(1, [[1, 2]])}"),
+    ("comp/star", "x = [w for v, *w in t(1, [[1, 2, 3]])]"),
+    ("comp/two", "x = [w for v in t(1, [[7], [8]]) for w in v]"),
+    ("comp/same2", "x = [v for v in t(1, [[7], [8]]) for v in v]"),
+    ("comp/iffalse", "x = [v for v in t(1, [7, 8]) if t(2, 0)]"),
+    ("comp/ifvar", "x = [t(2) for v in t(1, [0, 8]) if v]"),
+    ("comp/nested", "x = [[v for v in t(1, [9])] for v in t(2, [7, 8])]"),
+    ("comp/nestedother", "x = [[w for w in t(1, [9])] for v in t(2, [7, 8])]"),
+    ("comp/outeriter", "x = [t(1) for v in v]"),           # the first iterable is evaluated in the enclosing scope
+    ("comp/walrusout", "x = [(y := v) for v in t(1, [7, 8])]"),
+    ("comp/walrusin", "x = [(v := u) for u in t(1, [7, 8])]"),  # walrus binds the ENCLOSING v; u is scoped
+    ("comp/raise", "x = [t(2, [])[0] for v in t(1, [7, 8])]"),    # restored also when the body raises
+    ("comp/raiseiter", "x = [v for v in t(1, 5)]"),              # iter() raises before any binding
+    ("comp/raiseunpack", "x = [v for v, w in t(1, [[1]])]"),
+    ("comp/twice", "x = [v for v in t(1, [7])]\nz = [v for v in t(2, [8])]"),
+    ("comp/arg", "x = g([v for v in t(1, [7, 8])], k={w for w in t(2, [9])})"),
+    # the other name-binding operations on an already bound name
+    ("load", "x = v"),
+    ("load2", "x = [v, w, v]"),
+    ("del", "del v"),
+    ("del2", "del v, w"),
+    ("walrus", "x = (v := t(1))"),
+    ("walrusself", "x = (v := v)"),
+    ("rebind", "v = t(1)"),
+    ("rebindplain", "v = w = None"),
+    ("unpack", "v, w = t(1, [7, 8])"),
+    ("unpackstar", "v, *w = t(1, [7, 8, 9])"),
+    ("unpackfrom", "x, y = v"),
+    ("aug", "v += t(1)"),
+    ("augself", "v += w"),
+    ("truth/if", "x = t(1) if v else t(2)"),
+    ("truth/and", "x = v and t(1)"),
+    ("truth/or", "x = v or t(1)"),
+    ("truth/not", "x = not v"),
+    ("truth/compif", "x = [t(2) for u in t(1, [7]) if v]"),
+    ("isnone", "x = v is None"),
+    ("isnotnone", "x = (v is not None) and t(1)"),
+    ("fstr", "x = f'{v}{w!r}'"),
+    ("call", "x = g(v, k=w)"),
+    ("star", "x = [*v, t(1)]"),
+    ("dstar", "x = {**v, 'k': t(1)}"),
+    ("store", "a0[t(1, 0)] = v"),
+    ("dictval", "x = {t(1): v, 'n': w}"),
+]
+
+
+def scope_bindings():
+    """(tag, prelude): the names v and w bound to every value of the kind table as a PLAIN object, to recorder
+    objects (truthy / wrapping None / falsy), and not bound at all."""
+    out = [("plain/%s" % lit, "v = %s\nw = %s\n" % (lit, lit)) for _k, lit in kind_lits(True)]
+    out += [("rec", "v = t(90)\nw = t(91)\n"), ("recnone", "v = t(90, None)\nw = t(91, None)\n"),
+            ("recfalsy", "v = t(90, 0)\nw = t(91, [])\n"), ("alias", "v = w = t(90)\n"), ("mixed", "v = None\nw = t(91)\n"),
+            ("unbound", "")]
+    return out
+
+
+def gen_scope():
+    out = []
+    for btag, pre in scope_bindings():
+        for ftag, form in SCOPE_FORMS:
+            out.append(("scope/%s/%s" % (ftag, btag), "%s%s\nr = (v, w)" % (pre, form)))
     return out
 
 
@@ -766,7 +854,7 @@ class RandGen:
         if k == "comp":
             return self.comp(d)
         if k == "dictcomp":
-            v = r.choice("uv")
+            v = self.loopvar()
             key = v if self.m else r.choice([v, self.rec(d - 1)])
             return "{%s: %s for %s in %s}" % (key, self.any(d - 1), v, self.iterable(d - 1))
         if k == "fstr":
@@ -791,9 +879,17 @@ class RandGen:
         r = self.r
         return r.choice([self.leaf("[7, 8]"), self.leaf("[]"), self.leaf("(1, 2, 3)"), "a0", "d0", "[%s, %s]" % (self.rec(d), self.rec(d)), self.rec(d)])
 
+    def loopvar(self):
+        """a comprehension loop variable: fresh (u, v) or - shadowing - a name the program has bound before"""
+        r = self.r
+        bound = self.rvars + self.pvars
+        if bound and r.random() < 0.3:
+            return r.choice(bound)
+        return r.choice("uv")
+
     def comp(self, d):
         r = self.r
-        v = r.choice("uv")
+        v = self.loopvar()
         gens = "for %s in %s" % (v, self.iterable(d - 1))
         if r.random() < 0.4:
             gens += " if %s" % self.any(d - 1)
@@ -824,7 +920,7 @@ class RandGen:
             return s
         if k == "assignp":
             n = r.choice("pq")
-            s = "%s = %s" % (n, self.any(d))
+            s = "%s = %s" % (n, self.any(d) if r.random() < 0.7 else r.choice(["None", "0", "False", "''", "[]", "()", "{}", "1", "'s'", "[1, 2]"]))
             self.bind(n, False)
             return s
         if k == "multi":
@@ -1048,6 +1144,36 @@ def selftest(ctx, cases):
             c4["id"] = "corrupt-final/" + c["id"]
             c4["cpy"]["final"]["x"] = {"k": "v", "id": 999, "b": True}
             bad.append(c4)
+    # bindings (Round 3): a final binding dropped from the recording ("the name got lost": exactly what a wrong scope
+    # restore does), a binding the program does not leave behind added, a plain final value replaced by another plain
+    # value - for the scope family on the names the program shadows / rebinds, and on a random name of the other cases
+    other = {"k": "c", "t": "int", "r": "77", "s": "77", "b": True}
+    nscope = 0
+    spool = [c for c in cases if c.get("fam") == "scope"]
+    r.shuffle(spool)
+    for c in spool[:40] + pool[:20]:
+        fin = c["cpy"]["final"]
+        names = [m for m in ("v", "w") if m in fin] if c.get("fam") == "scope" else [r.choice(sorted(fin))]
+        for m in names:
+            for name, fn in (("unbind", lambda f, m=m: f.pop(m)), ("rebind", lambda f, m=m: f.__setitem__(m, other))):
+                # (a value computed by a plain primitive is opaque to the machine - a wildcard: only bindings of
+                # recorder objects / None / bools, which the machine always knows, are replaced)
+                if name == "rebind" and not (c.get("fam") == "scope" and fin[m]["k"] in ("v", "none", "b")):
+                    continue
+                c5 = copy.deepcopy(c)
+                c5["id"] = "corrupt-%s-%s/%s" % (name, m, c["id"])
+                fn(c5["cpy"]["final"])
+                bad.append(c5)
+                nscope += c.get("fam") == "scope"
+        for m in [m for m in ("v", "w", "u") if m not in fin][:1]:
+            c6 = copy.deepcopy(c)
+            c6["id"] = "corrupt-bind-%s/%s" % (m, c["id"])
+            c6["cpy"]["final"][m] = {"k": "none"}
+            bad.append(c6)
+            nscope += c.get("fam") == "scope"
+    if spool and nscope < 40:
+        raise MachineryFailure("selftest: too few scope recordings to corrupt (%d)" % nscope)
+    ctx.cov["selftest_binding_corruptions"] = nscope
     if len(bad) < 20:
         raise MachineryFailure("selftest: nothing to corrupt")
     rej = tlc_batches(ctx, bad, "corrupt", 2)
@@ -1076,9 +1202,14 @@ def build_programs(ctx):
         add("template", base, [OPTS0, QUIET])
         add("template", r.sample(rest, len(rest) // 12), [OPTS0, QUIET], alternate=True)
         add("table", r.sample(tables, len(tables) // 8), [OPTS0, QUIET], alternate=True)
+        # scope family: complete in the quiet mode (masked space), a seeded eighth also in the full mode
+        scope = gen_scope()
+        add("scope", scope, [QUIET])
+        add("scope", r.sample(scope, len(scope) // 8), [OPTS0])
     else:
         add("table", tables, [OPTS0, QUIET])
         add("template", tpls, [OPTS0, QUIET])
+        add("scope", gen_scope(), [OPTS0, QUIET])
     add("witness", [("witness/%d" % i, f["witness"]) for i, f in enumerate(ctx.findings) if f.get("status") == "known"], [OPTS0])
     only = os.environ.get("VERIF_C01_FAMILIES")       # development aid (tools/c01_try_fix.sh): restrict the families
     if only:
@@ -1234,7 +1365,34 @@ def eval_order(tree):
     return out
 
 
-def gen_skeletons(ctx):
+# scope skeletons: comprehension forms whose loop variables v / w are pre-bound in env0
+SK_SCOPE = ["x = [v for v in #]", "x = {v: # for v in #}", "x = {v for v in [#, #]}", "x = [(v, w) for v, w in #]",
+            "x = [w for v in # for w in #]", "x = [v for v in # if #]", "x = [[v for v in #] for v in #]",
+            "x = [(y := v) for v in #]", "x = [# for v in #]\nz = v"]
+SK_PRE = {"none": {"k": "none"}, "rec": {"k": "v", "id": 50, "b": True}, "unbound": None}
+
+
+def scoped_names(tree):
+    """Independent statement of the scoping rule on the ast: the names a program binds ONLY as comprehension
+    loop variables (walrus targets inside a comprehension bind in the enclosing scope)."""
+    comp, other = set(), set()
+
+    def go(n, in_target):
+        if isinstance(n, ast.Name) and isinstance(n.ctx, (ast.Store, ast.Del)):
+            (comp if in_target else other).add(n.id)
+        elif isinstance(n, ast.comprehension):
+            go(n.target, True)
+            go(n.iter, False)
+            for c in n.ifs:
+                go(c, False)
+        elif isinstance(n, ast.AST):
+            for c in ast.iter_child_nodes(n):
+                go(c, in_target and not isinstance(n, (ast.Subscript, ast.Attribute)))
+    go(tree, False)
+    return sorted(comp - other)
+
+
+def gen_skeletons(ctx, flags=(), scope_only=False):
     from pyvalues import final_bindings, make_env
     srcs = [_number(s) for s in SK_TOP]
     deep = []
@@ -1253,30 +1411,40 @@ def gen_skeletons(ctx):
     _, env = make_env(OPTS0)
     env0 = final_bindings(env)
     sk = []
-    for i, src in enumerate(srcs + deep):
+    items = [(src, env0) for src in ([] if scope_only else srcs + deep)]
+    for form in SK_SCOPE:
+        for pre in SK_PRE.values():
+            items.append((_number(form), env0 if pre is None else dict(env0, v=pre, w=pre)))
+    for i, (src, env0) in enumerate(items):
         tree = ast.parse(src)
         order = eval_order(tree)
         plain = sum(len(g.iter.elts) for n in ast.walk(tree) if isinstance(n, (ast.ListComp, ast.SetComp, ast.DictComp))
                     for g in n.generators if isinstance(g.iter, (ast.List, ast.Tuple)))
         sk.append({"id": i, "src": src, "body": [conv(s) for s in tree.body], "env0": env0, "plainiter": plain,
+                   "scoped": scoped_names(tree), "fl": list(flags),
                    "leaves": [{"n": n, "rank": r + 1, "loop": lp} for r, (n, lp) in enumerate(order)]})
     return sk
 
 
+WITNESSES = ["mid-raise", "short-circuit", "loop-twice", "shadowed-read", "raise-while-shadowed", "leak-violates-ScopeRestored"]
+
+
 def model_check(ctx):
-    """returns list of (label, TLCResult)"""
+    """returns (skeletons, [(label, TLCResult)])"""
     sk = gen_skeletons(ctx)
     path = os.path.join(ctx.scratch, "c01_skels.json")
     json.dump(sk, open(path, "w"))
+    # the witness run: the same skeletons plus the scope skeletons on the LEAKING variant of the machine (deviation flag
+    # comp-leak-on-raise), on which the theorem ScopeRestored must fail
+    wpath = os.path.join(ctx.scratch, "c01_skels_w.json")
+    json.dump(sk + gen_skeletons(ctx, flags=["comp-leak-on-raise"], scope_only=True), open(wpath, "w"))
     jopts = "-Xss256m -XX:ParallelGCThreads=2"
-    runs = [("Theorems", "PyExprMC.cfg")]
-    for w in ("Witness_NoMidRaise", "Witness_NoShortCircuit", "Witness_NoLoopTwice"):
-        cfg = os.path.join(ctx.scratch, "PyExprMC_%s.cfg" % w)
-        open(cfg, "w").write("SPECIFICATION Spec\nINVARIANT %s\nCHECK_DEADLOCK FALSE\n" % w)
-        runs.append((w, cfg))
-    res = parallel([(lambda c=c, l=l: tlc.run("PyExprMC", c, ctx.scratch, workers=(min(4, CAP) if CAP else ctx.pick(4, 8)) if l == "Theorems" else 1, timeout=3000,
-                                               env={"SKELS": path, "JAVA_TOOL_OPTIONS": jopts})) for l, c in runs], max_workers=1 if CAP else 4)
-    return sk, list(zip([l for l, _ in runs], res))
+    wcfg = os.path.join(ctx.scratch, "PyExprMC_witness.cfg")
+    open(wcfg, "w").write("SPECIFICATION Spec\nINVARIANT Witness_All\nCHECK_DEADLOCK FALSE\n")
+    runs = [("Theorems", "PyExprMC.cfg", path), ("Witnesses", wcfg, wpath)]
+    res = parallel([(lambda c=c, l=l, pth=pth: tlc.run("PyExprMC", c, ctx.scratch, workers=(min(4, CAP) if CAP else ctx.pick(4, 8)) if l == "Theorems" else 1, timeout=3000,
+                                                        env={"SKELS": pth, "JAVA_TOOL_OPTIONS": jopts})) for l, c, pth in runs], max_workers=1 if CAP else 2)
+    return sk, list(zip([l for l, _, _ in runs], res))
 
 
 def report_model(ctx, sk, results):
@@ -1285,8 +1453,15 @@ def report_model(ctx, sk, results):
             ctx.add_tlc(res, "PyExprMC: machine theorems on %d skeletons (depth <= 2)" % len(sk))
             if not res.ok:
                 raise MachineryFailure("PyExprMC: machine theorem violated (%s):\n%s" % (res.violated, (res.cex or "")[:3000]))
-        elif res.ok:
-            raise MachineryFailure("PyExprMC: witness %s holds - the exploration never exercises the case" % label)
+        else:
+            seen = [i.get("witness") for i in res.infos]
+            if res.ok or sorted(seen) != sorted(WITNESSES):
+                raise MachineryFailure("PyExprMC: witnesses never observed: %s (the exploration does not exercise the case; for "
+                                       "leak-violates-ScopeRestored: the theorem does not separate the machine from its leaking "
+                                       "variant)" % sorted(set(WITNESSES) - set(seen)))
+            ctx.cov["model_witnesses_observed"] = seen
+            ctx.add_tlc(res, "PyExprMC: all %d witness conditions observed (run stops at the last one; skeletons + leaking variants)" % len(seen))
     ctx.cov["model_skeletons"] = len(sk)
-    ctx.cov["model_theorems"] = ["NoStuck", "AtMostOnce", "InOrder", "InOrderLoop", "RaiseLast", "NoSpontaneous"]
-    ctx.cov["model_witnesses_violated_as_expected"] = 3
+    ctx.cov["model_scope_skeletons"] = sum(1 for s in sk if set(s["scoped"]) & set(s["env0"]))
+    ctx.cov["model_theorems"] = ["NoStuck", "AtMostOnce", "InOrder", "InOrderLoop", "RaiseLast", "NoSpontaneous", "ScopeRestored"]
+    ctx.cov["model_witnesses_violated_as_expected"] = len(WITNESSES)
